@@ -1,8 +1,1400 @@
-//! C18 — not built yet.
+//! C18 — the AY chip turns any register history into the sound its registers define.
+//! Real code: `aym::AymPrecise` through (a) the hook `verif_raw_tick` (one real `update_mixer` per call:
+//! integer generator state + pre-filter left/right) and (b) the public `write_register/next_sample`;
+//! the `ZXAyChip` register file through ports 0xFFFD/0xBFFD of a real `Emulator`.
+//! Every probe is a one-line text case (`Probe::text`), which is also the replay format.
+use crate::host::*;
 use crate::util::*;
+use aym::{AyMode, AymBackend, AymPrecise, SoundChip, VerifRawTick};
+use std::panic::{catch_unwind, AssertUnwindSafe};
 
-pub fn run(_o: &Opts) -> Report {
+const CLOCK: usize = 1_773_400;
+
+fn mode_of(i: usize) -> AyMode {
+    match i {
+        0 => AyMode::Mono,
+        1 => AyMode::ABC,
+        2 => AyMode::ACB,
+        3 => AyMode::BAC,
+        4 => AyMode::BCA,
+        5 => AyMode::CAB,
+        _ => AyMode::CBA,
+    }
+}
+const MODE_NAMES: [&str; 7] = ["Mono", "ABC", "ACB", "BAC", "BCA", "CAB", "CBA"];
+
+fn mk(ym: bool, mode: usize, rate: usize) -> AymPrecise {
+    <AymPrecise as AymBackend>::new(if ym { SoundChip::YM } else { SoundChip::AY }, mode_of(mode), CLOCK, rate)
+}
+
+#[derive(Clone, Debug, PartialEq)]
+enum Op {
+    W(u8, u8),
+    T(u32),
+}
+
+#[derive(Clone, Debug, PartialEq)]
+enum Probe {
+    /// differential against the model on a write/tick interleaving
+    Raw { ym: bool, mode: usize, ops: Vec<Op> },
+    /// tone divider: intervals between toggles
+    Tone { ch: usize, fine: u8, coarse: u8 },
+    /// noise divider and LFSR sequence
+    Noise { r6: u8 },
+    /// envelope level per step
+    Env { r13: u8, ep: u16 },
+    /// mixer gate / amplitude index for one R7 mask and three volume registers
+    Gate { ym: bool, mode: usize, r7: u8, vols: [u8; 3] },
+    /// DAC monotonicity through the pre-filter level
+    Dac { ym: bool },
+    /// stereo placement of one channel in one mode
+    Pan { mode: usize, ch: usize },
+    /// public API: zero-crossing frequency
+    SigFreq { ym: bool, rate: usize, tp: u16, ch: usize },
+    /// public API: envelope contour
+    SigEnv { ym: bool, rate: usize, shape: u8 },
+    /// public API: left/right energy
+    SigPan { rate: usize, mode: usize, ch: usize },
+    /// public API: finite and bounded under random writes
+    SigFuzz { rate: usize, seed: u64, dc: bool, ym: bool },
+    /// FIR table of the ℚ-model vs the source text
+    Fir,
+    /// ports 0xFFFD / 0xBFFD on an Emulator: s<val> select, w<val> write, r read
+    Port { m128: bool, alias: bool, ops: Vec<(char, u8)> },
+}
+
+fn ops_text(ops: &[Op]) -> String {
+    if ops.is_empty() {
+        return "-".into();
+    }
+    ops.iter()
+        .map(|o| match o {
+            Op::W(a, v) => format!("w{:02x}{:02x}", a, v),
+            Op::T(n) => format!("t{}", n),
+        })
+        .collect::<Vec<_>>()
+        .join(",")
+}
+
+fn parse_ops(s: &str) -> Vec<Op> {
+    s.split(',')
+        .filter_map(|t| {
+            if let Some(r) = t.strip_prefix('w') {
+                Some(Op::W(u8::from_str_radix(r.get(0..2)?, 16).ok()?, u8::from_str_radix(r.get(2..4)?, 16).ok()?))
+            } else if let Some(r) = t.strip_prefix('t') {
+                Some(Op::T(r.parse().ok()?))
+            } else {
+                None
+            }
+        })
+        .collect()
+}
+
+impl Probe {
+    fn text(&self) -> String {
+        match self {
+            Probe::Raw { ym, mode, ops } => format!("raw ym={} mode={} ops={}", *ym as u8, mode, ops_text(ops)),
+            Probe::Tone { ch, fine, coarse } => format!("tone ch={} fine={} coarse={}", ch, fine, coarse),
+            Probe::Noise { r6 } => format!("noise r6={}", r6),
+            Probe::Env { r13, ep } => format!("env r13={} ep={}", r13, ep),
+            Probe::Gate { ym, mode, r7, vols } => {
+                format!("gate ym={} mode={} r7={} v0={} v1={} v2={}", *ym as u8, mode, r7, vols[0], vols[1], vols[2])
+            }
+            Probe::Dac { ym } => format!("dac ym={}", *ym as u8),
+            Probe::Pan { mode, ch } => format!("pan mode={} ch={}", mode, ch),
+            Probe::SigFreq { ym, rate, tp, ch } => format!("sigfreq ym={} rate={} tp={} ch={}", *ym as u8, rate, tp, ch),
+            Probe::SigEnv { ym, rate, shape } => format!("sigenv ym={} rate={} shape={}", *ym as u8, rate, shape),
+            Probe::SigPan { rate, mode, ch } => format!("sigpan rate={} mode={} ch={}", rate, mode, ch),
+            Probe::SigFuzz { rate, seed, dc, ym } => {
+                format!("sigfuzz rate={} seed={} dc={} ym={}", rate, seed, *dc as u8, *ym as u8)
+            }
+            Probe::Fir => "fir".to_string(),
+            Probe::Port { m128, alias, ops } => format!(
+                "port m128={} alias={} ops={}",
+                *m128 as u8,
+                *alias as u8,
+                ops.iter().map(|(c, v)| format!("{}{:02x}", c, v)).collect::<Vec<_>>().join(",")
+            ),
+        }
+    }
+
+    fn parse(s: &str) -> Option<Probe> {
+        let mut it = s.split_whitespace();
+        let kind = it.next()?;
+        let mut kv = std::collections::BTreeMap::new();
+        for t in it {
+            let (k, v) = t.split_once('=')?;
+            kv.insert(k.to_string(), v.to_string());
+        }
+        let n = |k: &str| -> Option<u64> { kv.get(k)?.parse().ok() };
+        let b = |k: &str| -> Option<bool> { Some(kv.get(k)? == "1") };
+        Some(match kind {
+            "raw" => Probe::Raw { ym: b("ym")?, mode: n("mode")? as usize, ops: parse_ops(kv.get("ops")?) },
+            "tone" => Probe::Tone { ch: n("ch")? as usize, fine: n("fine")? as u8, coarse: n("coarse")? as u8 },
+            "noise" => Probe::Noise { r6: n("r6")? as u8 },
+            "env" => Probe::Env { r13: n("r13")? as u8, ep: n("ep")? as u16 },
+            "gate" => Probe::Gate {
+                ym: b("ym")?,
+                mode: n("mode")? as usize,
+                r7: n("r7")? as u8,
+                vols: [n("v0")? as u8, n("v1")? as u8, n("v2")? as u8],
+            },
+            "dac" => Probe::Dac { ym: b("ym")? },
+            "pan" => Probe::Pan { mode: n("mode")? as usize, ch: n("ch")? as usize },
+            "sigfreq" => Probe::SigFreq { ym: b("ym")?, rate: n("rate")? as usize, tp: n("tp")? as u16, ch: n("ch")? as usize },
+            "sigenv" => Probe::SigEnv { ym: b("ym")?, rate: n("rate")? as usize, shape: n("shape")? as u8 },
+            "sigpan" => Probe::SigPan { rate: n("rate")? as usize, mode: n("mode")? as usize, ch: n("ch")? as usize },
+            "sigfuzz" => Probe::SigFuzz { rate: n("rate")? as usize, seed: n("seed")?, dc: b("dc")?, ym: b("ym")? },
+            "fir" => Probe::Fir,
+            "port" => Probe::Port {
+                m128: b("m128")?,
+                alias: b("alias")?,
+                ops: kv
+                    .get("ops")?
+                    .split(',')
+                    .filter_map(|t| {
+                        let c = t.chars().next()?;
+                        Some((c, u8::from_str_radix(t.get(1..3).unwrap_or("00"), 16).ok()?))
+                    })
+                    .collect(),
+            },
+            _ => return None,
+        })
+    }
+}
+
+struct Disagreement {
+    kind: Kind,
+    key: String,
+    what: String,
+    implementation: String,
+    expected: String,
+    /// for Raw: index of the op at which it showed
+    at: Option<usize>,
+}
+
+fn dis(kind: Kind, key: impl Into<String>, what: impl Into<String>, imp: impl Into<String>, exp: impl Into<String>) -> Disagreement {
+    Disagreement { kind, key: key.into(), what: what.into(), implementation: imp.into(), expected: exp.into(), at: None }
+}
+
+/// The model's DAC table (decimal literals, parsed exactly like the Rust source literals) and pan positions.
+struct Tables {
+    dac: Vec<f64>,
+    pan_left: [f64; 3],
+    pan_right: [f64; 3],
+}
+
+fn new_model(model: &mut Model, ym: bool, mode: usize) -> Tables {
+    let a = model.ask(&format!("new {} {:x}", ym as u8, mode));
+    let t: Vec<&str> = a.split(' ').collect();
+    assert_eq!(t[0], "ok", "driver: {}", a);
+    let dac: Vec<f64> = t[1].split(',').map(|x| x.parse::<f64>().unwrap()).collect();
+    let mut pl = [0.0; 3];
+    let mut pr = [0.0; 3];
+    for i in 0..3 {
+        let pan = t[2 + i].parse::<f64>().unwrap() / 2.0;
+        pl[i] = (1.0 - pan).sqrt();
+        pr[i] = pan.sqrt();
+    }
+    Tables { dac, pan_left: pl, pan_right: pr }
+}
+
+fn expected_lr(t: &Tables, outs: [usize; 3]) -> (f64, f64) {
+    let mut l = 0.0;
+    let mut r = 0.0;
+    for i in 0..3 {
+        let d = t.dac.get(outs[i]).copied().unwrap_or(f64::NAN);
+        l += d * t.pan_left[i];
+        r += d * t.pan_right[i];
+    }
+    (l, r)
+}
+
+fn tick_line(v: &VerifRawTick) -> String {
+    format!(
+        "{}{}{} {:x} {:x} {:x} {:x} {:x} {:x} {:x} {}",
+        v.tone[0] & 1,
+        v.tone[1] & 1,
+        v.tone[2] & 1,
+        v.tone_counter[0],
+        v.tone_counter[1],
+        v.tone_counter[2],
+        v.noise,
+        v.noise_counter,
+        v.envelope,
+        v.envelope_counter,
+        v.envelope_segment & 1
+    )
+}
+
+fn ticks_real(ay: &mut AymPrecise, n: usize) -> Result<Vec<VerifRawTick>, String> {
+    catch_unwind(AssertUnwindSafe(|| (0..n).map(|_| ay.verif_raw_tick()).collect::<Vec<_>>()))
+        .map_err(|_| "panic in update_mixer".to_string())
+}
+
+// ------------------------------------------------------------------------------------------- raw
+
+fn component_of(real: &str, model: &str) -> &'static str {
+    let r: Vec<&str> = real.split(' ').collect();
+    let m: Vec<&str> = model.split(' ').collect();
+    if r[0] != m[0] || r[1..4] != m[1..4] {
+        "tone"
+    } else if r[4] != m[4] || r[5] != m[5] {
+        "noise"
+    } else {
+        "envelope"
+    }
+}
+
+fn probe_raw(model: &mut Model, ym: bool, mode: usize, ops: &[Op], mut rep: Option<&mut Report>) -> Option<Disagreement> {
+    let tabs = new_model(model, ym, mode);
+    let mut ay = mk(ym, mode, 44100);
+    let mut lines = vec![];
+    let mut real: Vec<(usize, Option<VerifRawTick>)> = vec![];
+    let mut shape = 0u8;
+    for (i, op) in ops.iter().enumerate() {
+        match op {
+            Op::W(a, v) => {
+                if catch_unwind(AssertUnwindSafe(|| ay.write_register(*a, *v))).is_err() {
+                    let mut d = dis(Kind::SpecViolated, "C18/panic", "write_register panicked", format!("w{:02x}{:02x}", a, v), "no panic");
+                    d.at = Some(i);
+                    return Some(d);
+                }
+                if *a == 13 {
+                    shape = v & 0x0F;
+                }
+                lines.push(format!("w {:x} {:x}", a, v));
+                real.push((i, None));
+            }
+            Op::T(n) => {
+                match ticks_real(&mut ay, *n as usize) {
+                    Ok(vs) => {
+                        for v in vs {
+                            lines.push("t".to_string());
+                            real.push((i, Some(v)));
+                        }
+                    }
+                    Err(e) => {
+                        let mut d = dis(Kind::SpecViolated, "C18/panic", "update_mixer panicked (assert out < 32 or arithmetic overflow)", e, "no panic");
+                        d.at = Some(i);
+                        return Some(d);
+                    }
+                }
+            }
+        }
+    }
+    let ans = model.ask_many(&lines);
+    for ((i, r), a) in real.iter().zip(ans.iter()) {
+        let Some(v) = r else { continue };
+        // <outA> <outB> <outC> <state…>
+        let mut it = a.splitn(4, ' ');
+        let outs = [
+            usize::from_str_radix(it.next().unwrap(), 16).unwrap(),
+            usize::from_str_radix(it.next().unwrap(), 16).unwrap(),
+            usize::from_str_radix(it.next().unwrap(), 16).unwrap(),
+        ];
+        let mstate = it.next().unwrap();
+        let rstate = tick_line(v);
+        if let Some(rp) = rep.as_deref_mut() {
+            rp.eval();
+            rp.class(format!(
+                "raw {} {} shape={} seg={} gates={}{}{}",
+                if ym { "YM" } else { "AY" },
+                MODE_NAMES[mode],
+                shape,
+                v.envelope_segment & 1,
+                (outs[0] > 0) as u8,
+                (outs[1] > 0) as u8,
+                (outs[2] > 0) as u8
+            ));
+        }
+        if rstate != mstate {
+            let comp = component_of(&rstate, mstate);
+            let mut d = dis(
+                Kind::ModelMismatch,
+                format!("C18/raw.{}", comp),
+                format!("generator state after op #{} differs from the Lean model ({})", i, comp),
+                rstate,
+                mstate.to_string(),
+            );
+            d.at = Some(*i);
+            return Some(d);
+        }
+        let (el, er) = expected_lr(&tabs, outs);
+        if v.left.to_bits() != el.to_bits() || v.right.to_bits() != er.to_bits() {
+            let mut d = dis(
+                Kind::ModelMismatch,
+                "C18/raw.mix",
+                format!("pre-filter left/right after op #{} differ from dac[out]*pan of the model (outs {:?})", i, outs),
+                format!("{:e} {:e}", v.left, v.right),
+                format!("{:e} {:e}", el, er),
+            );
+            d.at = Some(*i);
+            return Some(d);
+        }
+    }
+    None
+}
+
+fn gen_raw(r: &mut Rng) -> Probe {
+    let ym = r.bool();
+    let mode = r.below(7) as usize;
+    let nops = r.range(10, 60);
+    let mut ops = vec![];
+    for _ in 0..nops {
+        if r.chance(3, 5) {
+            let a = match r.below(24) {
+                0..=13 => r.below(14) as u8,
+                14..=16 => 13,
+                17..=18 => 7,
+                19 => 6,
+                20 => 11,
+                21 => 14 + r.below(2) as u8,
+                _ => r.u8(),
+            };
+            let v = match a {
+                0 | 2 | 4 => match r.below(4) {
+                    0 => r.u8(),
+                    _ => r.below(12) as u8,
+                },
+                1 | 3 | 5 => match r.below(5) {
+                    0 => r.u8(),
+                    1 => 0xF0,
+                    _ => 0,
+                },
+                6 => match r.below(3) {
+                    0 => r.u8(),
+                    _ => r.below(5) as u8,
+                },
+                11 => match r.below(4) {
+                    0 => r.u8(),
+                    _ => r.below(6) as u8,
+                },
+                12 => match r.below(5) {
+                    0 => r.u8(),
+                    _ => 0,
+                },
+                _ => r.u8(),
+            };
+            ops.push(Op::W(a, v));
+        } else {
+            ops.push(Op::T(match r.below(6) {
+                0 => r.range(1, 3) as u32,
+                5 => r.range(60, 300) as u32,
+                _ => r.range(1, 40) as u32,
+            }));
+        }
+    }
+    ops.push(Op::T(r.range(1, 70) as u32));
+    Probe::Raw { ym, mode, ops }
+}
+
+// ------------------------------------------------------------------------------------ spec probes
+
+fn probe_tone(model: &mut Model, ch: usize, fine: u8, coarse: u8, rep: Option<&mut Report>) -> Option<Disagreement> {
+    let tp = fine as usize + 256 * (coarse as usize & 0x0F);
+    let want = usize::from_str_radix(&model.ask(&format!("spec tone {:x}", tp)), 16).unwrap();
+    let mut ay = mk(false, 0, 44100);
+    // run a while with another period first so that the counter is somewhere
+    ay.write_register((2 * ch) as u8, 37);
+    let _ = ticks_real(&mut ay, 23);
+    ay.write_register((2 * ch) as u8, fine);
+    ay.write_register((2 * ch + 1) as u8, coarse);
+    let n = 6 * want + 8;
+    let vs = match ticks_real(&mut ay, n) {
+        Ok(v) => v,
+        Err(e) => return Some(dis(Kind::SpecViolated, "C18/panic", "update_mixer panicked", e, "no panic")),
+    };
+    let mut toggles = vec![];
+    let mut prev = None;
+    for (t, v) in vs.iter().enumerate() {
+        let cur = v.tone[ch] & 1;
+        if let Some(p) = prev {
+            if p != cur {
+                toggles.push(t);
+            }
+        }
+        prev = Some(cur);
+    }
+    let intervals: Vec<usize> = toggles.windows(2).map(|w| w[1] - w[0]).collect();
+    if let Some(r) = rep {
+        r.eval();
+        r.class(format!("tone ch={} tp-class={}", ch, match tp {
+            0 => "0",
+            1 => "1",
+            2..=15 => "2-15",
+            16..=255 => "16-255",
+            256..=4094 => "256-4094",
+            _ => "4095",
+        }));
+    }
+    let ok = intervals.len() >= 4 && intervals.iter().all(|d| *d == want) && toggles[0] <= want;
+    if !ok {
+        return Some(dis(
+            Kind::SpecViolated,
+            "C18/tone.period",
+            format!("channel {} with TP={} (R{}={:#x}, R{}={:#x}): ticks between output toggles", ch, tp, 2 * ch, fine, 2 * ch + 1, coarse),
+            format!("first toggle after {:?}, intervals {:?}", toggles.first(), &intervals[..intervals.len().min(8)]),
+            format!("every {} ticks", want),
+        ));
+    }
+    None
+}
+
+fn probe_noise(model: &mut Model, r6: u8, rep: Option<&mut Report>) -> Option<Disagreement> {
+    let want = usize::from_str_radix(&model.ask(&format!("spec noise {:x}", r6)), 16).unwrap();
+    let mut ay = mk(false, 0, 44100);
+    ay.write_register(6, r6);
+    let steps = 40;
+    let vs = match ticks_real(&mut ay, want * steps + 4) {
+        Ok(v) => v,
+        Err(e) => return Some(dis(Kind::SpecViolated, "C18/panic", "update_mixer panicked", e, "no panic")),
+    };
+    let mut changes = vec![];
+    for t in 1..vs.len() {
+        if vs[t].noise != vs[t - 1].noise {
+            changes.push(t);
+        }
+    }
+    let intervals: Vec<usize> = changes.windows(2).map(|w| w[1] - w[0]).collect();
+    if let Some(r) = rep {
+        r.eval();
+        r.class(format!("noise np={}", r6 & 0x1F));
+    }
+    if intervals.len() < steps - 3 || intervals.iter().any(|d| *d != want) {
+        return Some(dis(
+            Kind::SpecViolated,
+            "C18/noise.clock",
+            format!("R6={:#x} (NP={}): ticks between LFSR steps", r6, r6 & 0x1F),
+            format!("{:?}", &intervals[..intervals.len().min(8)]),
+            format!("every {} ticks", want),
+        ));
+    }
+    // the sequence of values is the 17-bit LFSR with taps 0 and 3
+    let lines: Vec<String> = changes.iter().map(|t| format!("spec lfsr {:x}", vs[t - 1].noise)).collect();
+    let ans = model.ask_many(&lines);
+    for (t, a) in changes.iter().zip(ans.iter()) {
+        let want = usize::from_str_radix(a, 16).unwrap();
+        if vs[*t].noise != want {
+            return Some(dis(
+                Kind::SpecViolated,
+                "C18/noise.lfsr",
+                format!("LFSR successor of {:#x}", vs[t - 1].noise),
+                format!("{:#x}", vs[*t].noise),
+                format!("{:#x}", want),
+            ));
+        }
+    }
+    None
+}
+
+fn probe_env(model: &mut Model, r13: u8, ep: u16, rep: Option<&mut Report>) -> Option<Disagreement> {
+    let shape = r13 & 0x0F;
+    let eff = if ep == 0 { 1 } else { ep as usize };
+    let steps = if eff > 1000 { 3 } else { 140 };
+    let mut ay = mk(false, 0, 44100);
+    ay.write_register(11, ep as u8);
+    ay.write_register(12, (ep >> 8) as u8);
+    let _ = ticks_real(&mut ay, 5);
+    ay.write_register(13, r13);
+    let vs = match ticks_real(&mut ay, eff * steps - 1) {
+        Ok(v) => v,
+        Err(e) => return Some(dis(Kind::SpecViolated, "C18/panic", "update_mixer panicked", e, "no panic")),
+    };
+    // after tick n (1-based, counted from the R13 write) n / eff envelope steps have been applied
+    let mut levels: Vec<Option<usize>> = vec![None; steps];
+    let mut steady = true;
+    for (i, v) in vs.iter().enumerate() {
+        let k = (i + 1) / eff;
+        if k >= steps {
+            break;
+        }
+        match levels[k] {
+            None => levels[k] = Some(v.envelope),
+            Some(x) if x != v.envelope => steady = false,
+            _ => {}
+        }
+    }
+    // step 0 is not observable through the hook when eff = 1 (the first tick already steps)
+    let offset = if levels[0].is_none() { 1 } else { 0 };
+    let shown: Vec<usize> = levels[offset..].iter().map(|x| x.unwrap_or(usize::MAX)).collect();
+    if let Some(r) = rep {
+        r.eval();
+        r.class(format!("env shape={} ep-class={}", shape, match eff {
+            1 => "1",
+            2..=9 => "2-9",
+            10..=999 => "10-999",
+            _ => ">=1000",
+        }));
+    }
+    // ask the spec: the sequence must be accepted (with the step-0 value restored from the spec when unobservable)
+    let mut seq = shown.clone();
+    if offset == 1 {
+        let first = model.ask(&format!("spec env {:x} 1", shape));
+        seq.insert(0, usize::from_str_radix(&first, 16).unwrap());
+    }
+    let text = seq.iter().map(|x| format!("{:x}", x)).collect::<Vec<_>>().join(",");
+    let ok = model.ask(&format!("spec envok {:x} {}", shape, text)) == "1";
+    if !ok || !steady {
+        let want = model.ask(&format!("spec env {:x} {:x}", shape, seq.len().min(70)));
+        return Some(dis(
+            Kind::SpecViolated,
+            format!("C18/envelope.shape={}", shape),
+            format!("R13={:#x} (shape {}), EP={}: level per envelope step{}", r13, shape, ep, if steady { "" } else { " (level changed inside a step)" }),
+            seq.iter().take(70).map(|x| format!("{:x}", x)).collect::<Vec<_>>().join(","),
+            want,
+        ));
+    }
+    None
+}
+
+fn probe_gate(model: &mut Model, ym: bool, mode: usize, r7: u8, vols: [u8; 3], rep: Option<&mut Report>) -> Option<Disagreement> {
+    let tabs = new_model(model, ym, mode);
+    let mut ay = mk(ym, mode, 44100);
+    for (a, v) in [(0u8, 2u8), (2, 3), (4, 5), (6, 1), (11, 2), (13, 14), (7, r7), (8, vols[0]), (9, vols[1]), (10, vols[2])] {
+        ay.write_register(a, v);
+    }
+    let vs = match ticks_real(&mut ay, 24) {
+        Ok(v) => v,
+        Err(e) => return Some(dis(Kind::SpecViolated, "C18/panic", "update_mixer panicked", e, "no panic")),
+    };
+    let mut lines = vec![];
+    for v in &vs {
+        for ch in 0..3 {
+            lines.push(format!("spec idx {:x} {:x} {:x} {} {} {:x}", r7, vols[ch], ch, v.tone[ch] & 1, v.noise & 1, v.envelope));
+        }
+    }
+    let ans = model.ask_many(&lines);
+    let mut rep = rep;
+    for (t, v) in vs.iter().enumerate() {
+        let outs = [
+            usize::from_str_radix(&ans[3 * t], 16).unwrap(),
+            usize::from_str_radix(&ans[3 * t + 1], 16).unwrap(),
+            usize::from_str_radix(&ans[3 * t + 2], 16).unwrap(),
+        ];
+        let (el, er) = expected_lr(&tabs, outs);
+        if let Some(r) = rep.as_deref_mut() {
+            r.eval();
+        }
+        // tolerance-free: the same f64 operations in the same order
+        if v.left.to_bits() != el.to_bits() || v.right.to_bits() != er.to_bits() {
+            // single-channel isolation tells whether the gate/amplitude index is at fault
+            return Some(dis(
+                Kind::SpecViolated,
+                "C18/mixer.gate",
+                format!(
+                    "{} {} R7={:#04x} R8..R10={:02x?} tick {}: tone={:?} noise bit={} level={} ⇒ DAC indices {:?}",
+                    if ym { "YM" } else { "AY" },
+                    MODE_NAMES[mode],
+                    r7,
+                    vols,
+                    t,
+                    v.tone,
+                    v.noise & 1,
+                    v.envelope,
+                    outs
+                ),
+                format!("left={:e} right={:e}", v.left, v.right),
+                format!("left={:e} right={:e}", el, er),
+            ));
+        }
+    }
+    if let Some(r) = rep {
+        r.class(format!("gate {} r7={:02x} env={}{}{}", if ym { "YM" } else { "AY" }, r7, (vols[0] >> 4) & 1, (vols[1] >> 4) & 1, (vols[2] >> 4) & 1));
+    }
+    None
+}
+
+/// pre-filter level of channel A alone with the gate forced open
+fn level_of(ym: bool, mode: usize, ch: usize, volreg: u8, shape_ticks: Option<(u8, usize)>) -> Option<(f64, f64)> {
+    let mut ay = mk(ym, mode, 44100);
+    ay.write_register(7, 0x3F);
+    ay.write_register(8 + ch as u8, volreg);
+    if let Some((shape, _)) = shape_ticks {
+        ay.write_register(11, 1);
+        ay.write_register(13, shape);
+    }
+    let n = shape_ticks.map(|x| x.1).unwrap_or(1).max(1);
+    let vs = ticks_real(&mut ay, n).ok()?;
+    let v = vs.last()?;
+    Some((v.left, v.right))
+}
+
+fn probe_dac(_model: &mut Model, ym: bool, rep: Option<&mut Report>) -> Option<Disagreement> {
+    // volume 0..15 strictly increasing; envelope level 0..31 (shape 13 = attack, one step per tick) non-decreasing
+    let mut vols = vec![];
+    for v in 0..16u8 {
+        vols.push(level_of(ym, 0, 0, v, None)?.0);
+    }
+    let mut env = vec![];
+    for k in 0..32usize {
+        // after k ticks with EP=1 the level is k (tick n gives level n); k = 0: use tick 1 of shape 9 … simpler: level k after k ticks, k>=1
+        let ticks = if k == 0 { 33 } else { k };
+        let shape = if k == 0 { 4 } else { 13 }; // shape 4: after the first ramp the level is 0
+        env.push(level_of(ym, 0, 0, 0x10, Some((shape, ticks)))?.0);
+    }
+    if let Some(r) = rep {
+        r.eval();
+        r.class(format!("dac {}", if ym { "YM" } else { "AY" }));
+    }
+    let strict = vols.windows(2).all(|w| w[0] < w[1]);
+    let mono = env.windows(2).all(|w| w[0] <= w[1]);
+    let bounded = vols.iter().chain(env.iter()).all(|x| x.is_finite() && *x >= 0.0 && *x <= 1.0);
+    if !(strict && mono && bounded) {
+        return Some(dis(
+            Kind::SpecViolated,
+            "C18/dac.monotonic",
+            format!("{} chip: pre-filter level of one channel per 4-bit volume / per envelope level", if ym { "YM" } else { "AY" }),
+            format!("volumes {:?} envelope {:?}", vols, env),
+            "strictly increasing with the volume, non-decreasing along the envelope levels, within [0,1]",
+        ));
+    }
+    None
+}
+
+fn probe_pan(model: &mut Model, mode: usize, ch: usize, rep: Option<&mut Report>) -> Option<Disagreement> {
+    let want = model.ask(&format!("spec place {:x} {:x}", mode, ch));
+    let (l, r) = level_of(false, mode, ch, 0x0F, None)?;
+    let got = if l > 0.0 && r == 0.0 {
+        "2 0"
+    } else if r > 0.0 && l == 0.0 {
+        "0 2"
+    } else if l > 0.0 && (l - r).abs() <= 1e-12 {
+        "1 1"
+    } else {
+        "?"
+    };
+    if let Some(rp) = rep {
+        rp.eval();
+        rp.class(format!("pan {} ch={}", MODE_NAMES[mode], ch));
+    }
+    if got != want {
+        return Some(dis(
+            Kind::SpecViolated,
+            format!("C18/pan.mode={}.ch={}", MODE_NAMES[mode], ch),
+            format!("mode {} channel {}: squared (left,right) gains in halves", MODE_NAMES[mode], ["A", "B", "C"][ch]),
+            format!("{} (left={:e} right={:e})", got, l, r),
+            want,
+        ));
+    }
+    None
+}
+
+// ------------------------------------------------------------------------------- signal-level probes
+
+/// |sample| bound over ℚ: 2·(Σ gains ≤ 3·√½)·(FIR ℓ1 norm 1.7743) < 8; the DC filter at most doubles it.
+const BOUND: f64 = 8.0;
+
+fn low_rate(rate: usize) -> bool {
+    // step = clock / (rate * 64) >= 1: `process` consumes at most one chip tick per oversampled point
+    CLOCK >= rate * 64
+}
+
+fn signal_key(rate: usize, specific: &str) -> String {
+    if low_rate(rate) {
+        "C18/signal.low-rate".to_string()
+    } else {
+        format!("C18/signal.{}", specific)
+    }
+}
+
+/// the sample stream (left) of one tone channel alone
+fn tone_stream(ym: bool, rate: usize, tp: u16, ch: usize, n: usize) -> Option<Vec<f64>> {
+    let mut ay = mk(ym, 0, rate);
+    ay.write_register((2 * ch) as u8, tp as u8);
+    ay.write_register((2 * ch + 1) as u8, (tp >> 8) as u8);
+    ay.write_register(7, 0x3F & !(1 << ch));
+    ay.write_register(8 + ch as u8, 0x0F);
+    catch_unwind(AssertUnwindSafe(|| (0..n).map(|_| ay.next_sample().left).collect::<Vec<f64>>())).ok()
+}
+
+fn probe_sigfreq(_model: &mut Model, ym: bool, rate: usize, tp: u16, ch: usize, rep: Option<&mut Report>) -> Option<Disagreement> {
+    if tp & 0xFFF == 0 {
+        // TP = 0 acts as 1. A 110.8 kHz square wave is half the chip's own tick rate and is not representable
+        // after the interpolator, so the frequency cannot be measured; the two streams must be identical instead.
+        let a = tone_stream(ym, rate, 0, ch, 4000)?;
+        let b = tone_stream(ym, rate, 1, ch, 4000)?;
+        if let Some(r) = rep {
+            r.eval();
+            r.class(format!("sigfreq rate={} tp=0~1", rate));
+        }
+        if a.iter().map(|x| x.to_bits()).ne(b.iter().map(|x| x.to_bits())) {
+            return Some(dis(
+                Kind::SpecViolated,
+                signal_key(rate, "tone-zero-as-one"),
+                format!("{} Hz channel {}: sample streams for TP=0 and TP=1", rate, ch),
+                "streams differ",
+                "bit-identical streams (a period of 0 acts as 1)",
+            ));
+        }
+        return None;
+    }
+    let mut ay = mk(ym, 0, rate);
+    let tp_eff = if tp & 0xFFF == 0 { 1.0 } else { (tp & 0xFFF) as f64 };
+    let f = CLOCK as f64 / (16.0 * tp_eff);
+    ay.write_register((2 * ch) as u8, tp as u8);
+    ay.write_register((2 * ch + 1) as u8, (tp >> 8) as u8);
+    ay.write_register(7, 0x3F & !(1 << ch));
+    ay.write_register(8 + ch as u8, 0x0F);
+    let n = (rate / 4).max(2000);
+    let res = catch_unwind(AssertUnwindSafe(|| (0..n).map(|_| ay.next_sample().left).collect::<Vec<f64>>()));
+    let v = match res {
+        Ok(v) => v,
+        Err(_) => return Some(dis(Kind::SpecViolated, "C18/panic", "next_sample panicked", "panic", "no panic")),
+    };
+    let skip = 64.min(n / 4);
+    let w = &v[skip..];
+    let finite = w.iter().all(|x| x.is_finite());
+    let maxabs = w.iter().fold(0.0f64, |a, x| a.max(x.abs()));
+    let mean = w.iter().sum::<f64>() / w.len() as f64;
+    let amp = w.iter().fold(0.0f64, |a, x| a.max((x - mean).abs()));
+    let h = 0.2 * amp;
+    let mut state = 0i8;
+    let mut flips = 0usize;
+    for x in w {
+        let y = x - mean;
+        if y > h && state != 1 {
+            if state != 0 {
+                flips += 1;
+            }
+            state = 1;
+        } else if y < -h && state != -1 {
+            if state != 0 {
+                flips += 1;
+            }
+            state = -1;
+        }
+    }
+    let dur = w.len() as f64 / rate as f64;
+    let measured = flips as f64 / 2.0 / dur;
+    if let Some(r) = rep {
+        r.eval();
+        r.class(format!("sigfreq rate={} tp={}", rate, tp));
+        r.count("signal_rates", format!("{}", rate));
+    }
+    let tol = (2.0 / dur).max(0.01 * f);
+    if !finite || maxabs > BOUND || (measured - f).abs() > tol || amp < 1e-3 {
+        return Some(dis(
+            Kind::SpecViolated,
+            signal_key(rate, "tone-frequency"),
+            format!("{} at {} Hz, channel {} TP={}: square wave through next_sample ({} samples)", if ym { "YM" } else { "AY" }, rate, ch, tp, n),
+            format!("measured {:.1} Hz, max |sample| {:e}, finite={}", measured, maxabs, finite),
+            format!("f_clk/(16*TP) = {:.1} Hz (±{:.1}), |sample| <= {}", f, tol, BOUND),
+        ));
+    }
+    None
+}
+
+fn probe_sigenv(model: &mut Model, ym: bool, rate: usize, shape: u8, rep: Option<&mut Report>) -> Option<Disagreement> {
+    let tabs = new_model(model, ym, 0);
+    let tick_rate = CLOCK as f64 / 8.0;
+    let per_step = 96.0; // output samples per envelope step
+    let ep = ((per_step * tick_rate / rate as f64).ceil() as usize).clamp(1, 65535);
+    let spp = ep as f64 * rate as f64 / tick_rate; // samples per step
+    let steps = 70usize;
+    let mut ay = mk(ym, 0, rate);
+    ay.write_register(7, 0x3F);
+    ay.write_register(8, 0x10);
+    ay.write_register(11, ep as u8);
+    ay.write_register(12, (ep >> 8) as u8);
+    ay.write_register(13, shape);
+    let n = (spp * steps as f64) as usize + 64;
+    let res = catch_unwind(AssertUnwindSafe(|| (0..n).map(|_| ay.next_sample().left).collect::<Vec<f64>>()));
+    let v = match res {
+        Ok(v) => v,
+        Err(_) => return Some(dis(Kind::SpecViolated, "C18/panic", "next_sample panicked", "panic", "no panic")),
+    };
+    let want_levels: Vec<usize> = model
+        .ask(&format!("spec env {:x} {:x}", shape, steps))
+        .split(',')
+        .map(|x| usize::from_str_radix(x, 16).unwrap())
+        .collect();
+    let delay = 14.0;
+    let mut got = vec![];
+    let mut want = vec![];
+    let mut bad = None;
+    for k in 0..steps {
+        let a = (k as f64 * spp + delay + 0.35 * spp) as usize;
+        let b = (k as f64 * spp + delay + 0.9 * spp) as usize;
+        let m = v[a..b].iter().sum::<f64>() / (b - a) as f64;
+        let w = tabs.dac[want_levels[k]] * tabs.pan_left[0];
+        got.push(m);
+        want.push(w);
+        if !(m.is_finite() && (m - w).abs() <= 0.004 + 0.02 * w) && bad.is_none() {
+            bad = Some(k);
+        }
+    }
+    if let Some(r) = rep {
+        r.eval();
+        r.class(format!("sigenv {} rate={} shape={}", if ym { "YM" } else { "AY" }, rate, shape));
+        r.count("signal_rates", format!("{}", rate));
+    }
+    if let Some(k) = bad {
+        let lo = k.saturating_sub(2);
+        return Some(dis(
+            Kind::SpecViolated,
+            signal_key(rate, &format!("envelope-contour.shape={}", shape & 15)),
+            format!("{} at {} Hz, shape {} EP={}: mean output level per envelope step (first deviation at step {})", if ym { "YM" } else { "AY" }, rate, shape, ep, k),
+            format!("steps {}..: {:?}", lo, got[lo..(k + 3).min(steps)].iter().map(|x| format!("{:.4}", x)).collect::<Vec<_>>()),
+            format!("steps {}..: {:?}", lo, want[lo..(k + 3).min(steps)].iter().map(|x| format!("{:.4}", x)).collect::<Vec<_>>()),
+        ));
+    }
+    None
+}
+
+fn probe_sigpan(model: &mut Model, rate: usize, mode: usize, ch: usize, rep: Option<&mut Report>) -> Option<Disagreement> {
+    let want = model.ask(&format!("spec place {:x} {:x}", mode, ch));
+    let mut ay = mk(false, mode, rate);
+    ay.write_register((2 * ch) as u8, 120);
+    ay.write_register(7, 0x3F & !(1 << ch));
+    ay.write_register(8 + ch as u8, 0x0F);
+    let n = 3000;
+    let res = catch_unwind(AssertUnwindSafe(|| {
+        (0..n)
+            .map(|_| {
+                let s = ay.next_sample();
+                (s.left, s.right)
+            })
+            .collect::<Vec<_>>()
+    }));
+    let v = match res {
+        Ok(v) => v,
+        Err(_) => return Some(dis(Kind::SpecViolated, "C18/panic", "next_sample panicked", "panic", "no panic")),
+    };
+    let el: f64 = v.iter().map(|x| x.0 * x.0).sum();
+    let er: f64 = v.iter().map(|x| x.1 * x.1).sum();
+    let got = if !(el.is_finite() && er.is_finite()) {
+        "?"
+    } else if el > 1e-3 && er <= 1e-12 * el {
+        "2 0"
+    } else if er > 1e-3 && el <= 1e-12 * er {
+        "0 2"
+    } else if el > 1e-3 && (el - er).abs() <= 1e-9 * el {
+        "1 1"
+    } else {
+        "?"
+    };
+    if let Some(r) = rep {
+        r.eval();
+        r.class(format!("sigpan {} ch={}", MODE_NAMES[mode], ch));
+    }
+    if got != want {
+        return Some(dis(
+            Kind::SpecViolated,
+            signal_key(rate, &format!("stereo.mode={}.ch={}", MODE_NAMES[mode], ch)),
+            format!("mode {} channel {} alone at {} Hz: left/right energy", MODE_NAMES[mode], ["A", "B", "C"][ch], rate),
+            format!("{} (E_left={:e}, E_right={:e})", got, el, er),
+            want,
+        ));
+    }
+    None
+}
+
+fn probe_sigfuzz(_model: &mut Model, rate: usize, seed: u64, dc: bool, ym: bool, rep: Option<&mut Report>) -> Option<Disagreement> {
+    let mut r = Rng::new(seed);
+    let mode = r.below(7) as usize;
+    let mut ay = mk(ym, mode, rate);
+    if dc {
+        ay.enable_dc_filter();
+    }
+    let bound = if dc { 2.0 * BOUND } else { BOUND };
+    let mut worst = 0.0f64;
+    let mut finite = true;
+    let mut history = vec![];
+    let mut total = 0usize;
+    let res = catch_unwind(AssertUnwindSafe(|| {
+        for _ in 0..30 {
+            for _ in 0..r.range(1, 6) {
+                let a = if r.chance(1, 12) { r.u8() } else { r.below(14) as u8 };
+                let v = r.u8();
+                ay.write_register(a, v);
+                history.push((a, v));
+            }
+            let n = r.range(40, 400) as usize;
+            for _ in 0..n {
+                let s = ay.next_sample();
+                finite &= s.left.is_finite() && s.right.is_finite();
+                worst = worst.max(s.left.abs()).max(s.right.abs());
+            }
+            total += n;
+            if !finite || worst > bound {
+                break;
+            }
+        }
+    }));
+    if let Some(rp) = rep {
+        rp.eval();
+        rp.class(format!("sigfuzz rate={} dc={} {}", rate, dc as u8, if ym { "YM" } else { "AY" }));
+        rp.count("signal_rates", format!("{}", rate));
+    }
+    if res.is_err() {
+        return Some(dis(Kind::SpecViolated, "C18/panic", format!("panic under random writes at {} Hz (seed {})", rate, seed), "panic", "no panic"));
+    }
+    if !finite || worst > bound {
+        return Some(dis(
+            Kind::SpecViolated,
+            signal_key(rate, "bounded"),
+            format!("{} Hz, {} random register writes interleaved with {} samples (mode {}, dc filter {})", rate, history.len(), total, MODE_NAMES[mode], dc),
+            format!("max |sample| = {:e}, all finite = {}", worst, finite),
+            format!("finite and |sample| <= {}", bound),
+        ));
+    }
+    None
+}
+
+// ---------------------------------------------------------------------------------------- ports
+
+fn probe_port(model: &mut Model, m128: bool, alias: bool, ops: &[(char, u8)], mut rep: Option<&mut Report>) -> Option<Disagreement> {
+    let mut c = Cfg::new(m128);
+    c.ay = true;
+    c.sound = true;
+    let mut e = emu(&c);
+    let mut r = Rng::new(ops.len() as u64 * 77 + 5);
+    let mut lines = vec!["chip reset".to_string()];
+    let mut reads = vec![];
+    for (k, (op, v)) in ops.iter().enumerate() {
+        // aliases: any address with A15=1, A1=0 (A14 selects register/data port); keep A0=1 so that the ULA is not addressed
+        let hi_sel = if alias { 0xC000 | (r.u16() & 0x3FFC) | 0x0001 } else { 0xFFFD };
+        let hi_dat = if alias { 0x8000 | (r.u16() & 0x3FFC) | 0x0001 } else { 0xBFFD };
+        let res = catch_unwind(AssertUnwindSafe(|| match op {
+            's' => {
+                e.verif_write_io(hi_sel, *v);
+                None
+            }
+            'w' => {
+                e.verif_write_io(hi_dat, *v);
+                None
+            }
+            _ => Some(e.verif_read_io(hi_sel)),
+        }));
+        match res {
+            Err(_) => return Some(dis(Kind::SpecViolated, "C18/panic", format!("port op #{} panicked", k), "panic", "no panic")),
+            Ok(None) => lines.push(format!("chip {} {:x}", if *op == 's' { "sel" } else { "w" }, v)),
+            Ok(Some(got)) => {
+                lines.push(format!("chip r {:x}", got));
+                reads.push((k, got, lines.len() - 1));
+            }
+        }
+    }
+    let ans = model.ask_many(&lines);
+    for (k, got, li) in reads {
+        let t: Vec<&str> = ans[li].split(' ').collect();
+        if let Some(rp) = rep.as_deref_mut() {
+            rp.eval();
+        }
+        if t[2] != "1" {
+            return Some(dis(
+                Kind::SpecViolated,
+                "C18/readback",
+                format!("{}K, op #{}: IN 0xFFFD", if m128 { 128 } else { 48 }, k),
+                format!("{:02x}", got),
+                format!("{} (the value last written to the selected register, register numbers modulo 16)", t[1]),
+            ));
+        }
+        if format!("{:02x}", got) != t[0] {
+            return Some(dis(Kind::ModelMismatch, "C18/readback.model", format!("op #{}: differs from the Lean model", k), format!("{:02x}", got), t[0]));
+        }
+    }
+    if let Some(rp) = rep {
+        rp.class(format!("port {}K alias={} len-class={}", if m128 { 128 } else { 48 }, alias as u8, ops.len() / 64));
+    }
+    None
+}
+
+// ------------------------------------------------------------------------------------- dispatch
+
+fn run_probe(model: &mut Model, p: &Probe, rep: Option<&mut Report>) -> Option<Disagreement> {
+    match p {
+        Probe::Raw { ym, mode, ops } => probe_raw(model, *ym, *mode, ops, rep),
+        Probe::Tone { ch, fine, coarse } => probe_tone(model, *ch, *fine, *coarse, rep),
+        Probe::Noise { r6 } => probe_noise(model, *r6, rep),
+        Probe::Env { r13, ep } => probe_env(model, *r13, *ep, rep),
+        Probe::Gate { ym, mode, r7, vols } => probe_gate(model, *ym, *mode, *r7, *vols, rep),
+        Probe::Dac { ym } => probe_dac(model, *ym, rep),
+        Probe::Pan { mode, ch } => probe_pan(model, *mode, *ch, rep),
+        Probe::SigFreq { ym, rate, tp, ch } => probe_sigfreq(model, *ym, *rate, *tp, *ch, rep),
+        Probe::SigEnv { ym, rate, shape } => probe_sigenv(model, *ym, *rate, *shape, rep),
+        Probe::SigPan { rate, mode, ch } => probe_sigpan(model, *rate, *mode, *ch, rep),
+        Probe::SigFuzz { rate, seed, dc, ym } => probe_sigfuzz(model, *rate, *seed, *dc, *ym, rep),
+        Probe::Fir => probe_fir(model, rep),
+        Probe::Port { m128, alias, ops } => probe_port(model, *m128, *alias, ops, rep),
+    }
+}
+
+/// Shrinking: raw sessions and port histories lose operations (each candidate is re-run on the real code);
+/// the parameter probes are already minimal.
+fn shrink(model: &mut Model, p: &Probe, key: &str) -> Probe {
+    let fails = |model: &mut Model, q: &Probe| matches!(run_probe(model, q, None), Some(d) if d.key == key);
+    match p {
+        Probe::Raw { ym, mode, ops } => {
+            let mut cur = ops.clone();
+            if let Some(Disagreement { at: Some(i), .. }) = run_probe(model, p, None) {
+                cur.truncate(i + 1);
+            }
+            let mk = |o: &Vec<Op>| Probe::Raw { ym: *ym, mode: *mode, ops: o.clone() };
+            let mut budget = 600;
+            let mut chunk = (cur.len() / 2).max(1);
+            loop {
+                let mut i = 0;
+                let mut changed = false;
+                while i < cur.len() && budget > 0 {
+                    let end = (i + chunk).min(cur.len());
+                    let mut cand = cur[..i].to_vec();
+                    cand.extend_from_slice(&cur[end..]);
+                    budget -= 1;
+                    if !cand.is_empty() && fails(model, &mk(&cand)) {
+                        cur = cand;
+                        changed = true;
+                    } else {
+                        i = end;
+                    }
+                }
+                if budget == 0 || (chunk == 1 && !changed) {
+                    break;
+                }
+                if !changed || chunk > 1 {
+                    chunk = (chunk / 2).max(1);
+                }
+            }
+            // shorter tick bursts
+            for i in 0..cur.len() {
+                while let Op::T(n) = cur[i] {
+                    if n <= 1 || budget == 0 {
+                        break;
+                    }
+                    let mut cand = cur.clone();
+                    cand[i] = Op::T(n / 2);
+                    budget -= 1;
+                    if fails(model, &mk(&cand)) {
+                        cur = cand;
+                        continue;
+                    }
+                    let mut cand = cur.clone();
+                    cand[i] = Op::T(n - 1);
+                    budget -= 1;
+                    if fails(model, &mk(&cand)) {
+                        cur = cand;
+                    } else {
+                        break;
+                    }
+                }
+            }
+            let mut best = mk(&cur);
+            if *ym || *mode != 0 {
+                let cand = Probe::Raw { ym: false, mode: 0, ops: cur.clone() };
+                if fails(model, &cand) {
+                    best = cand;
+                }
+            }
+            best
+        }
+        Probe::Port { m128, alias, ops } => {
+            let mut cur = ops.clone();
+            let mk = |o: &Vec<(char, u8)>| Probe::Port { m128: *m128, alias: *alias, ops: o.clone() };
+            let mut i = 0;
+            let mut budget = 400;
+            while i < cur.len() && budget > 0 {
+                let mut cand = cur.clone();
+                cand.remove(i);
+                budget -= 1;
+                if fails(model, &mk(&cand)) {
+                    cur = cand;
+                } else {
+                    i += 1;
+                }
+            }
+            mk(&cur)
+        }
+        _ => p.clone(),
+    }
+}
+
+struct Run<'a> {
+    model: Model,
+    rep: &'a mut Report,
+    pending: Vec<(Probe, Disagreement)>,
+}
+
+impl<'a> Run<'a> {
+    fn go(&mut self, p: &Probe) {
+        if let Some(d) = run_probe(&mut self.model, p, Some(self.rep)) {
+            if d.kind == Kind::ModelMismatch {
+                // keep looking for an input on which the real code contradicts the spec (the spec probes do that)
+                self.rep.count("undecided_mismatches", d.key.clone());
+                if !self.pending.iter().any(|(_, x)| x.key == d.key) {
+                    self.pending.push((p.clone(), d));
+                }
+            } else {
+                self.record(p, d);
+            }
+        }
+    }
+    fn record(&mut self, p: &Probe, d: Disagreement) {
+        if self.rep.has_key(&d.key) {
+            self.rep.count("repeat_violations", d.key.clone());
+            return;
+        }
+        let small = shrink(&mut self.model, p, &d.key);
+        let d2 = run_probe(&mut self.model, &small, None).filter(|x| x.key == d.key).unwrap_or(d);
+        self.rep.violation(Violation {
+            kind: d2.kind,
+            key: d2.key.clone(),
+            what: format!("[{}] {}: real code {} / expected {}", small.text(), d2.what, d2.implementation, d2.expected),
+            correspondence: "corr.C18 (Model.Ay.tick/writeRegister vs AymPrecise::update_mixer/write_register via verif_raw_tick; Spec.Ay adjudicating)".into(),
+            case: J::obj(vec![("text", J::s(small.text()))]),
+            implementation: d2.implementation.clone(),
+            expected: d2.expected.clone(),
+        });
+    }
+    fn finish(&mut self) {
+        let pend = std::mem::take(&mut self.pending);
+        for (p, d) in pend {
+            // a mismatch of one generator is explained only by a spec violation of the same generator
+            let family: &[&str] = match d.key.as_str() {
+                "C18/raw.tone" => &["C18/tone."],
+                "C18/raw.noise" => &["C18/noise."],
+                "C18/raw.envelope" => &["C18/envelope."],
+                "C18/raw.mix" => &["C18/mixer.", "C18/pan.", "C18/dac."],
+                "C18/readback.model" => &["C18/readback"],
+                _ => &[],
+            };
+            let have_spec = self.rep.violations.iter().any(|v| v.kind == Kind::SpecViolated && family.iter().any(|f| v.key.starts_with(f)));
+            if have_spec {
+                self.rep.notes.push(format!("code/model mismatch {} attributed to the spec violation(s) reported", d.key));
+            } else {
+                self.record(&p, d);
+            }
+        }
+    }
+}
+
+/// `(tap index, coefficient × 10^22)` of every term of `decimate`, read from the source text
+fn fir_from_source() -> Option<Vec<(usize, i128)>> {
+    let text = std::fs::read_to_string(".cache/repo/aym/src/backends/precise.rs").ok()?;
+    let a = text.find("fn decimate")?;
+    let b = a + text[a..].find("split_at_mut")?;
+    let mut out = vec![];
+    for line in text[a..b].lines() {
+        let Some(star) = line.find(" * ") else { continue };
+        let Some(xi) = line.find("x[") else { continue };
+        if xi < star {
+            continue;
+        }
+        let num = line[..star].trim().rsplit(|c: char| c.is_whitespace()).next()?.trim_start_matches('+');
+        let idx: usize = line[xi + 2..].split(']').next()?.parse().ok()?;
+        let (neg, digits) = match num.strip_prefix('-') {
+            Some(r) => (true, r),
+            None => (false, num),
+        };
+        let (ip, fp) = digits.split_once('.')?;
+        if fp.len() > 22 || !ip.chars().all(|c| c.is_ascii_digit()) || !fp.chars().all(|c| c.is_ascii_digit()) {
+            return None;
+        }
+        let mut v: i128 = ip.parse().ok()?;
+        v = v * 10i128.pow(22) + format!("{:0<22}", fp).parse::<i128>().ok()?;
+        out.push((idx, if neg { -v } else { v }));
+    }
+    if out.len() < 10 {
+        return None;
+    }
+    Some(out)
+}
+
+/// Skipped (a note, never a violation) when the text cannot be parsed any more: the amplitude bound is observed by the
+/// signal-level probes in any case.
+fn probe_fir(model: &mut Model, rep: Option<&mut Report>) -> Option<Disagreement> {
+    let Some(src) = fir_from_source() else {
+        if let Some(r) = rep {
+            r.notes.push("extractor_skipped: FIR coefficients not found in aym/src/backends/precise.rs".into());
+        }
+        return None;
+    };
+    let want = model.ask("spec fir");
+    let model_tab: Vec<(usize, i128)> =
+        want.split(',').filter_map(|t| t.split_once(':')).map(|(j, c)| (j.parse().unwrap(), c.parse().unwrap())).collect();
+    if let Some(r) = rep {
+        r.eval();
+        r.class(format!("fir table {} taps", src.len()));
+    }
+    if src != model_tab {
+        let diff = src.iter().zip(model_tab.iter()).find(|(a, b)| a != b);
+        return Some(dis(
+            Kind::ModelMismatch,
+            "C18/fir.table",
+            "FIR coefficients of `decimate` in the source differ from the table fir_bounded_Q was proved for",
+            format!("{} terms, first difference {:?}", src.len(), diff.map(|x| x.0)),
+            format!("{} terms, {:?}", model_tab.len(), diff.map(|x| x.1)),
+        ));
+    }
+    None
+}
+
+pub fn run(o: &Opts) -> Report {
     let mut rep = Report::new("C18");
-    rep.notes.push("not built yet".into());
+    rep.rule = "(1) raw-tick differential: random sessions (chip AY/YM x 7 stereo modes) of register writes (all 14 registers, \
+masked bits set, ignored addresses 14..255, small periods so that every generator fires) interleaved with bursts of \
+verif_raw_tick; after every tick the integer generator state and the bit pattern of pre-filter left/right (recomputed as \
+dac[out]*pan from the model's DAC indices and tables) are compared with the Lean model. (2) spec probes on raw ticks, adjudicated \
+by the Lean chip definition: toggle intervals for sampled TP x 3 channels (thorough: all 4096), LFSR step intervals and successor \
+values for all 32 NP (+ masked bits), level-per-step sequences for all 16 shapes x 7 EP values (+ masked bits of R13), all 64 \
+mixer masks x volume/envelope-bit combinations x AY/YM, DAC monotonicity, placement for 7 modes x 3 channels. (3) signal level on \
+next_sample: zero-crossing frequency, envelope contour per shape, L/R energy per mode, finite/bounded under random writes at \
+8000..384000 Hz. (4) ports 0xFFFD/0xBFFD on 48K/128K emulators: all 256 register numbers + random histories, canonical and aliased \
+addresses. distinct = generator/mode/shape/segment/gate classes seen by (1), parameter classes of (2)-(4)"
+        .into();
+    let model = Model::spawn(&o.model, "C18");
+    let mut run = Run { model, rep: &mut rep, pending: vec![] };
+
+    if let Some(text) = &o.replay {
+        run.rep.sample(J::s(text.clone()));
+        match Probe::parse(text) {
+            Some(p) => {
+                if let Some(d) = run_probe(&mut run.model, &p, Some(run.rep)) {
+                    run.record(&p, d);
+                }
+            }
+            None => run.rep.notes.push("unparsable replay case".into()),
+        }
+        drop(run);
+        return rep;
+    }
+
+    let mut rng = Rng::new(o.seed);
+    // (1) raw-tick differential
+    let sessions = o.n(1200, 40_000);
+    for i in 0..sessions {
+        let mut r = rng.fork();
+        let p = gen_raw(&mut r);
+        if let Probe::Raw { ops, .. } = &p {
+            for op in ops {
+                match op {
+                    Op::W(a, _) => run.rep.count("raw_writes", if *a < 14 { format!("R{}", a) } else { "ignored address".to_string() }),
+                    Op::T(n) => run.rep.count_n("raw_ticks", "ticks", *n as u64),
+                }
+            }
+        }
+        if i < 1 {
+            run.rep.sample(J::s(p.text()));
+        }
+        run.go(&p);
+    }
+    // (2) spec probes
+    let mut tps: Vec<u16> = vec![0, 1, 2, 3, 4, 5, 7, 8, 15, 16, 17, 255, 256, 257, 1000, 2048, 4094, 4095];
+    if o.thorough() {
+        tps = (0..4096).collect();
+    } else {
+        for _ in 0..6 {
+            tps.push(rng.below(4096) as u16);
+        }
+    }
+    for ch in 0..3 {
+        for tp in &tps {
+            run.go(&Probe::Tone { ch, fine: *tp as u8, coarse: (tp >> 8) as u8 });
+        }
+        // bits 4-7 of the coarse register are not implemented
+        run.go(&Probe::Tone { ch, fine: 9, coarse: 0xF0 });
+        run.go(&Probe::Tone { ch, fine: 0, coarse: 0xA0 });
+    }
+    for np in 0..32u8 {
+        run.go(&Probe::Noise { r6: np });
+    }
+    for r6 in [0x20u8, 0xE3, 0xFF, 0x80] {
+        run.go(&Probe::Noise { r6 });
+    }
+    for shape in 0..16u8 {
+        for ep in [0u16, 1, 2, 3, 5, 64, 65535] {
+            if ep == 65535 && !o.thorough() && shape % 4 != 2 {
+                continue;
+            }
+            run.go(&Probe::Env { r13: shape, ep });
+        }
+        run.go(&Probe::Env { r13: 0xF0 | shape, ep: 2 });
+    }
+    run.rep.sample(J::s(Probe::Env { r13: 10, ep: 3 }.text()));
+    for ym in [false, true] {
+        for r7 in 0..64u8 {
+            // Mono: all three gains are equal, so that a pan-table slip is reported by the pan probes only
+            let mode = 0usize;
+            for vols in [[0x0F, 0x08, 0x01], [0x1F, 0x10, 0x0C], [0x00, 0x1A, 0x17], [rng.u8(), rng.u8(), rng.u8()]] {
+                run.go(&Probe::Gate { ym, mode, r7, vols });
+            }
+        }
+        // bits 6/7 of R7 are the I/O port directions: no effect on sound
+        run.go(&Probe::Gate { ym, mode: 0, r7: 0xC0 | 0x2A, vols: [0x0F, 0x1F, 0x05] });
+        run.go(&Probe::Dac { ym });
+    }
+    for mode in 0..7 {
+        for ch in 0..3 {
+            run.go(&Probe::Pan { mode, ch });
+        }
+    }
+    // (3) signal-level probes on the public API
+    let rates = [8000usize, 11025, 22050, 27710, 44100, 48000, 96000, 192000, 384000];
+    for (i, rate) in rates.iter().enumerate() {
+        // tone periods whose frequency stays below a quarter of the output rate and of the chip's tick rate
+        let min_tp = ((CLOCK as f64 / (16.0 * 0.25 * *rate as f64)).ceil() as u16).max(4);
+        let mut list = vec![min_tp, min_tp * 3 + 1, 200, 1000];
+        if *rate >= 384000 {
+            list.push(0); // 0 acts as 1
+        }
+        for (k, tp) in list.iter().enumerate() {
+            run.go(&Probe::SigFreq { ym: (i + k) % 2 == 1, rate: *rate, tp: *tp, ch: (i + k) % 3 });
+        }
+        for dc in [false, true] {
+            for k in 0..o.n(2, 40) {
+                run.go(&Probe::SigFuzz { rate: *rate, seed: o.seed * 1000 + k + i as u64 * 100, dc, ym: k % 2 == 1 });
+            }
+        }
+    }
+    for shape in 0..16u8 {
+        for rate in [44100usize, 96000] {
+            run.go(&Probe::SigEnv { ym: shape % 2 == 1, rate, shape });
+        }
+        if shape == 10 || shape == 13 {
+            run.go(&Probe::SigEnv { ym: false, rate: 8000, shape });
+            run.go(&Probe::SigEnv { ym: true, rate: 384000, shape });
+        }
+    }
+    for mode in 0..7 {
+        for ch in 0..3 {
+            run.go(&Probe::SigPan { rate: 44100, mode, ch });
+        }
+    }
+    run.rep.sample(J::s(Probe::SigFreq { ym: false, rate: 44100, tp: 200, ch: 0 }.text()));
+    // (4) ports
+    for m128 in [true, false] {
+        for alias in [false, true] {
+            // all 256 register numbers: select, write, read back; then read everything again
+            let mut ops = vec![];
+            for sel in 0..=255u8 {
+                ops.push(('s', sel));
+                ops.push(('w', sel.wrapping_mul(37) ^ 0x5A));
+                ops.push(('r', 0));
+            }
+            for sel in 0..=255u8 {
+                ops.push(('s', sel));
+                ops.push(('r', 0));
+            }
+            run.go(&Probe::Port { m128, alias, ops });
+            for _ in 0..o.n(6, 300) {
+                let n = rng.range(5, 120);
+                let ops: Vec<(char, u8)> = (0..n)
+                    .map(|_| match rng.below(3) {
+                        0 => ('s', if rng.bool() { rng.below(16) as u8 } else { rng.u8() }),
+                        1 => ('w', rng.u8()),
+                        _ => ('r', 0),
+                    })
+                    .collect();
+                run.go(&Probe::Port { m128, alias, ops });
+            }
+        }
+    }
+    // (5) the FIR table of the ℚ-model against the text of the source under test
+    run.go(&Probe::Fir);
+    run.finish();
+    let reqs = run.model.requests;
+    drop(run);
+    rep.extra.push(("raw_sessions".into(), J::I(sessions as i64)));
+    rep.extra.push(("model_requests".into(), J::I(reqs as i64)));
     rep
 }
